@@ -33,6 +33,9 @@ class PackageLoader(BaseLoader):
         encoding: Encoding of template files.
         ext: A default file extension to use if one is not provided. Should
             include a leading period.
+
+    Raise:
+        ValueError if `ext` is not a valid suffix.
     """
 
     def __init__(
@@ -51,6 +54,10 @@ class PackageLoader(BaseLoader):
 
         self.encoding = encoding
         self.ext = ext
+
+        # Raise a ValueError early if `ext` is invalid.
+        if ext:
+            Path("x").with_suffix(ext)
 
     def _resolve_path(self, template_name: str) -> Traversable:
         template_path = Path(template_name)
